@@ -96,6 +96,12 @@ func cellWidth(r rune) int {
 		(r >= 0xfdd0 && r <= 0xfdef) || (r >= 0 && r&0xfffe == 0xfffe) {
 		return 0
 	}
+	if (r >= 0x1160 && r <= 0x11ff) || (r >= 0xd7b0 && r <= 0xd7ff) {
+		// conjoining Hangul vowels and final consonants: letters by
+		// category, but terminals (wcwidth) give them no column: they
+		// join the syllable in front of them
+		return 0
+	}
 	return runewidth.RuneWidth(r)
 }
 
